@@ -188,6 +188,9 @@ REPLAY = {'quick': [('ab', 2, 80, 1)],
                        ('abc', 2, 500, 1), ('ab_c', 3, None, 1, 'num=800')]}
 
 
+DREPLAY = {'quick': [(4, None)], 'thorough': [(5, None), (6, 400)]}
+
+
 def replay_report(rep, rr):
     """A run that leaves the behaviour it was generated from is reported in
     the evidence; it is a violation only if the run itself breaks the
@@ -308,6 +311,17 @@ def main():
     judge(rep, [x[0] for x in rr])
     replay_report(rep, rr)
     S.cleanup([x[0] for x in rr])
+    # the same for sequential ddmin (DdminEmit.tla): one behaviour per
+    # deterministic command over N assertions, replayed with -j 1
+    import dreplay
+    dr = dreplay.replay_all(rep, S, DREPLAY[a.tier], common.seed() + 56,
+                            'c05d')
+    judge(rep, [x[0] for x in dr])
+    ddiv = [(b, d) for it, b, d in dr if d]
+    rep.cov['ddmin_replay_divergences'] = len(ddiv)
+    for b, d in ddiv[:3]:
+        rep.sample({'ddmin_replay_divergence': d[:2], 'chain': b['chain']})
+    S.cleanup([x[0] for x in dr])
     for it in items[:4]:
         rep.sample({'config': S.describe(it),
                     'writes': [e['toks'] for e in it.run.events
